@@ -62,8 +62,20 @@ def isFile : Part → Bool
 def structuralFault (req : Req) : Bool :=
   req.endErr || req.parts.any partFault || !(req.parts.any isFile)
 
-def mustFail (env : Env) (req : Req) (cutFlag : Bool) : Bool :=
-  structuralFault req || cutFlag ||
+/-- the request gets as far as asking for an upload id: its first part that is not a `commit`
+field is a file -/
+def reachesAlloc : List Part → Bool
+  | [] => false
+  | Part.file .. :: _ => true
+  | Part.field name :: ps => name == Bytes.ofString "commit" && reachesAlloc ps
+
+/-- id creation must refuse (rather than reuse or go back): the clock shows a day earlier than the
+newest id's day although ids of that earlier day exist. `days` = days of the ids given out so far. -/
+def clockRefuses (days : List Nat) (day : Nat) : Bool :=
+  days.any (fun d => d > day) && days.contains day
+
+def mustFail (env : Env) (req : Req) (cutFlag : Bool) (days : List Nat := []) : Bool :=
+  structuralFault req || cutFlag || (reachesAlloc req.parts && clockRefuses days env.day) ||
     (match req.fault with
      | some f => f.k < totalOps env req.parts
      | none => false)
